@@ -169,6 +169,10 @@ def run_case(case, ctx):
     names = ["DEPT"] + ["C%d" % j for j in range(1, n)]
     for j in range(n):
         las.append_curve(names[j], np.array(data[j], dtype=float), unit="m" if j == 0 else "u")
+    if kw.get("wrap") is True and case.get("seed", 0) % 3 == 0:
+        # wrap=None: the in-memory WRAP item decides
+        del kw["wrap"]
+        las.version["WRAP"].value = "YES"
     buf = io.StringIO()
     try:
         las.write(buf, **kw)
